@@ -316,7 +316,7 @@ impl Monitor {
         if let Some(f) = &self.focus {
             // (the count-word-after-free observation is harmless to continue from: the block is
             // quarantined, not freed)
-            if f != prop && (["C13", "C14", "C15", "C16", "C05"].contains(&prop) || kind == "count-access-after-free") {
+            if f != prop && (["C13", "C14", "C15", "C16", "C05", "C02"].contains(&prop) || kind == "count-access-after-free") {
                 if self.foreign.len() < 8 {
                     self.foreign.push((prop, kind));
                 }
